@@ -3,14 +3,14 @@ CONSTANTS
   BUDGET = 0
   FUEL = 3000
   MAXINT = 100000
-  CTXS = {"none", "let"}
-  PLACES = {"later"}
-  VALS = {"fn"}
+  CTXS = {}
+  PLACES = {}
+  VALS = {}
   NEST = FALSE
   PAIRS = FALSE
-  PATLEN = 0
-  INLEN = 0
-  ELEMKINDS = {"v"}
-  INKINDS = {"1"}
+  PATLEN = 3
+  INLEN = 3
+  ELEMKINDS = {"v", "k", "le"}
+  INKINDS = {"1", "k", "l2"}
 INVARIANTS InDomain SynErrSilent GlobalsSuffixed HEmit
 CHECK_DEADLOCK FALSE
